@@ -81,6 +81,152 @@ pub trait PwOps: Piece {
     fn pw_addsub(_f: &Piecewise<Self>, _g: &Piecewise<Self>, _sub: bool) -> Option<Piecewise<Self>> {
         None
     }
+    // The operation battery (C16's "every operation returns without panicking"): each group calls the
+    // piece-, segment- and piecewise-level operations that exist for the type and returns how many it made.
+    fn bat_common(f: &Piecewise<Self>, x: f64, c: f64) -> u64;
+    fn bat_scale(_f: &Piecewise<Self>, _s: f64) -> u64 {
+        0
+    }
+    fn bat_scale_assign(_f: &Piecewise<Self>, _s: f64) -> u64 {
+        0
+    }
+    fn bat_neg(_f: &Piecewise<Self>) -> u64 {
+        0
+    }
+    fn bat_add(_f: &Piecewise<Self>) -> u64 {
+        0
+    }
+    fn bat_deriv(_f: &Piecewise<Self>, _x: f64) -> u64 {
+        0
+    }
+    fn bat_integ(_f: &Piecewise<Self>, _k: Knot, _x: f64) -> u64 {
+        0
+    }
+}
+
+macro_rules! b_common {
+    () => {
+        fn bat_common(f: &Piecewise<Self>, x: f64, c: f64) -> u64 {
+            use approx::{AbsDiffEq, RelativeEq};
+            let mut g = f.clone();
+            let _ = g == *f;
+            let _ = f.abs_diff_eq(&g, 1e-9);
+            let _ = f.relative_eq(&g, 1e-9, 1e-9);
+            g.translate(c);
+            let _ = f.abs_diff_eq(&g, f64::default_epsilon());
+            // different lengths must simply compare unequal
+            let mut h = f.clone();
+            h.segments.pop();
+            let _ = f.abs_diff_eq(&h, 1e-9);
+            let _ = f.relative_eq(&h, 1e-9, 1e-9);
+            let _ = h == *f;
+            let mut n = 8;
+            if let Some(s) = f.segments.first() {
+                let mut s2 = s.clone();
+                let _ = s2.evaluate(x);
+                s2.translate(c);
+                let _ = s.abs_diff_eq(&s2, 1e-9);
+                let _ = s.relative_eq(&s2, 1e-9, 1e-9);
+                let mut p = s.poly.clone();
+                let _ = p.evaluate(x);
+                p.translate(c);
+                let _ = p.abs_diff_eq(&s.poly, 1e-9);
+                let _ = p.relative_eq(&s.poly, 1e-9, 1e-9);
+                let _ = p == s.poly;
+                n += 9;
+            }
+            n
+        }
+    };
+}
+macro_rules! b_scale {
+    () => {
+        fn bat_scale(f: &Piecewise<Self>, s: f64) -> u64 {
+            match f.segments.first() {
+                Some(seg) => {
+                    let _ = seg.poly * s;
+                    let _ = *seg * s;
+                    2
+                }
+                None => 0,
+            }
+        }
+    };
+}
+macro_rules! b_scale_assign {
+    () => {
+        fn bat_scale_assign(f: &Piecewise<Self>, s: f64) -> u64 {
+            match f.segments.first() {
+                Some(seg) => {
+                    let mut p = seg.poly;
+                    p *= s;
+                    let mut sg = *seg;
+                    sg *= s;
+                    let mut r = &mut sg;
+                    r *= s;
+                    3
+                }
+                None => 0,
+            }
+        }
+    };
+}
+macro_rules! b_neg {
+    () => {
+        fn bat_neg(f: &Piecewise<Self>) -> u64 {
+            match f.segments.first() {
+                Some(seg) => {
+                    let _ = -seg.poly;
+                    1
+                }
+                None => 0,
+            }
+        }
+    };
+}
+macro_rules! b_add {
+    () => {
+        fn bat_add(f: &Piecewise<Self>) -> u64 {
+            match (f.segments.first(), f.segments.last()) {
+                (Some(a), Some(b)) => {
+                    let _ = a.poly + b.poly;
+                    1
+                }
+                _ => 0,
+            }
+        }
+    };
+}
+macro_rules! b_deriv {
+    () => {
+        fn bat_deriv(f: &Piecewise<Self>, x: f64) -> u64 {
+            match f.segments.first() {
+                Some(seg) => {
+                    let _ = seg.poly.derivative().evaluate(x);
+                    let _ = seg.derivative().evaluate(x);
+                    2
+                }
+                None => 0,
+            }
+        }
+    };
+}
+macro_rules! b_integ {
+    () => {
+        fn bat_integ(f: &Piecewise<Self>, k: Knot, x: f64) -> u64 {
+            let mut n = 0;
+            if let Some(seg) = f.segments.first() {
+                let _ = seg.poly.indefinite().evaluate(x);
+                let _ = seg.poly.integral(k).evaluate(x);
+                let _ = seg.indefinite().evaluate(x);
+                let _ = seg.integral(k).evaluate(x);
+                n += 4;
+            }
+            let _ = Segment::integral_iter(f.segments.clone(), k).count();
+            let _ = Segment::integral_iter_ref(f.segments.iter(), k).last();
+            n + 2
+        }
+    };
 }
 
 macro_rules! m_scale {
@@ -138,7 +284,7 @@ fn knots_of(spec: &FuncSpec) -> Vec<Knot> {
         .collect()
 }
 
-impl PwOps for Poly0 { m_scale!(); m_scale_assign!(); m_neg!(); m_translate!(); m_deriv!(); m_integ!(); }
+impl PwOps for Poly0 { m_scale!(); m_scale_assign!(); m_neg!(); m_translate!(); m_deriv!(); m_integ!(); b_common!(); b_scale!(); b_scale_assign!(); b_neg!(); b_add!(); b_deriv!(); b_integ!(); }
 impl PwOps for Poly1 {
     fn from_source(spec: &FuncSpec) -> Piecewise<Self> {
         match spec.source {
@@ -147,8 +293,9 @@ impl PwOps for Poly1 {
         }
     }
     m_scale!(); m_scale_assign!(); m_neg!(); m_translate!(); m_deriv!(); m_integ!();
+    b_common!(); b_scale!(); b_scale_assign!(); b_neg!(); b_add!(); b_deriv!(); b_integ!();
 }
-impl PwOps for Poly2 { m_scale!(); m_scale_assign!(); m_neg!(); m_translate!(); m_deriv!(); m_integ!(); }
+impl PwOps for Poly2 { m_scale!(); m_scale_assign!(); m_neg!(); m_translate!(); m_deriv!(); m_integ!(); b_common!(); b_scale!(); b_scale_assign!(); b_neg!(); b_add!(); b_deriv!(); b_integ!(); }
 impl PwOps for Poly3 {
     fn from_source(spec: &FuncSpec) -> Piecewise<Self> {
         match spec.source {
@@ -157,18 +304,19 @@ impl PwOps for Poly3 {
         }
     }
     m_scale!(); m_scale_assign!(); m_neg!(); m_translate!(); m_deriv!(); m_integ!();
+    b_common!(); b_scale!(); b_scale_assign!(); b_neg!(); b_add!(); b_deriv!(); b_integ!();
 }
-impl PwOps for Poly4 { m_scale!(); m_scale_assign!(); m_neg!(); m_translate!(); m_deriv!(); m_integ!(); }
-impl PwOps for Poly5 { m_scale!(); m_scale_assign!(); m_neg!(); m_translate!(); m_deriv!(); m_integ!(); }
-impl PwOps for Poly6 { m_scale!(); m_scale_assign!(); m_neg!(); m_translate!(); m_deriv!(); m_integ!(); }
-impl PwOps for Poly7 { m_scale!(); m_scale_assign!(); m_neg!(); m_translate!(); m_deriv!(); m_integ!(); }
-impl PwOps for Poly8 { m_scale!(); m_scale_assign!(); m_neg!(); m_translate!(); m_deriv!(); }
-impl PwOps for PolyN { m_translate!(); }
+impl PwOps for Poly4 { m_scale!(); m_scale_assign!(); m_neg!(); m_translate!(); m_deriv!(); m_integ!(); b_common!(); b_scale!(); b_scale_assign!(); b_neg!(); b_add!(); b_deriv!(); b_integ!(); }
+impl PwOps for Poly5 { m_scale!(); m_scale_assign!(); m_neg!(); m_translate!(); m_deriv!(); m_integ!(); b_common!(); b_scale!(); b_scale_assign!(); b_neg!(); b_add!(); b_deriv!(); b_integ!(); }
+impl PwOps for Poly6 { m_scale!(); m_scale_assign!(); m_neg!(); m_translate!(); m_deriv!(); m_integ!(); b_common!(); b_scale!(); b_scale_assign!(); b_neg!(); b_add!(); b_deriv!(); b_integ!(); }
+impl PwOps for Poly7 { m_scale!(); m_scale_assign!(); m_neg!(); m_translate!(); m_deriv!(); m_integ!(); b_common!(); b_scale!(); b_scale_assign!(); b_neg!(); b_add!(); b_deriv!(); b_integ!(); }
+impl PwOps for Poly8 { m_scale!(); m_scale_assign!(); m_neg!(); m_translate!(); m_deriv!(); b_common!(); b_scale!(); b_scale_assign!(); b_neg!(); b_add!(); b_deriv!(); }
+impl PwOps for PolyN { m_translate!(); b_common!(); }
 
 macro_rules! log_ops {
     ($($p:ident),*) => { $(
-        impl PwOps for Log<$p> { m_scale!(); m_scale_assign!(); m_translate!(); m_integ!(); }
-        impl PwOps for IntOfLog<$p> { m_scale!(); m_scale_assign!(); m_neg!(); m_translate!(); }
+        impl PwOps for Log<$p> { m_scale!(); m_scale_assign!(); m_translate!(); m_integ!(); b_common!(); b_scale!(); b_scale_assign!(); b_integ!(); }
+        impl PwOps for IntOfLog<$p> { m_scale!(); m_scale_assign!(); m_neg!(); m_translate!(); b_common!(); b_scale!(); b_scale_assign!(); b_neg!(); b_add!(); }
     )* };
 }
 log_ops!(Poly0, Poly1, Poly2, Poly3, Poly4, Poly5, Poly6, Poly7, Poly8);
@@ -177,6 +325,21 @@ impl PwOps for IntOfLogPoly4 {
     m_scale!();
     m_neg!();
     m_translate!();
+    b_common!();
+    b_scale!();
+    b_neg!();
+    fn bat_add(f: &Piecewise<Self>) -> u64 {
+        match (f.segments.first(), f.segments.last()) {
+            (Some(a), Some(b)) => {
+                let _ = a.poly + b.poly;
+                let _ = a.poly - b.poly;
+                let _ = &a.poly + &b.poly;
+                let _ = &a.poly - &b.poly;
+                4
+            }
+            _ => 0,
+        }
+    }
     fn pw_addsub(f: &Piecewise<Self>, g: &Piecewise<Self>, sub: bool) -> Option<Piecewise<Self>> {
         Some(if sub { f - g } else { f + g })
     }
@@ -267,6 +430,22 @@ fn build_typed<T: PwOps>(spec: &FuncSpec, cov: &mut Cov) -> Box<dyn Target> {
             None => Box::new(f),
         },
     }
+}
+
+fn battery_typed<T: PwOps>(spec: &FuncSpec, x: f64, c: f64) -> u64 {
+    let f: Piecewise<T> = build_piecewise::<T>(&spec.ends, &spec.coefs);
+    let k = Knot::new(if matches!(spec.kind, Kind::L(_)) { x.abs().max(1e-3) } else { x }, c);
+    T::bat_common(&f, x, c) + T::bat_scale(&f, c) + T::bat_scale_assign(&f, c) + T::bat_neg(&f) + T::bat_add(&f) + T::bat_deriv(&f, x) + T::bat_integ(&f, k, x)
+}
+
+/// Run the operation battery on the directly-built form of a spec (piece-, segment- and piecewise-level
+/// operations that have no other caller in the worlds), under the crash monitor. Returns the number of
+/// library operations executed, or the panic message.
+pub fn ops_battery(spec: &FuncSpec, x: f64, c: f64) -> Result<u64, String> {
+    if spec.ends.is_empty() || spec.ends.len() > 300 {
+        return Ok(0);
+    }
+    guard(|| with_kind!(spec.kind, T => battery_typed::<T>(spec, x, c)))
 }
 
 /// Build the function a spec describes; every library call inside runs under the crash monitor.
